@@ -361,8 +361,11 @@ func main() {
 		"answer came from the fall-back to a local maximum and at least one SetTSO; distinct by sha256 of canonical (ops,obs)"
 
 	prep := make(chan *prepared, 1)
+	var mixed chan func(*res.Result)
 	if *withCluster && *replay == "" {
 		go func() { prep <- prepareCluster() }()
+		mixed = make(chan func(*res.Result), 1)
+		go func() { mixed <- mixedFlagPhase() }()
 	}
 	cfg, err := srv15.Config()
 	if err != nil {
@@ -489,11 +492,13 @@ func main() {
 		}
 		w.stress(R, time.Duration(*stressMs)*time.Millisecond)
 		w.failedWriteProbe(R)
+		w.dcLifeProbe(R) // before the Global TSO is reset beyond max-gap-reset-ts (no new allocator could start after that)
 		w.farResetProbe(R)
 		w.suffixRaceProbe(R)
 		w.leaderless(R)
 		if *withCluster {
 			clusterPhase(R, <-prep)
+			(<-mixed)(R)
 		}
 	}
 	if err := cf.Flush(); err != nil {
